@@ -1331,16 +1331,18 @@ void runHistory(vrt::Case& c, Node& model, size_t len)
       // restriction to a far tail where the parent has no representable mass
       if (!(model.kind == EXPO || model.kind == GAUSS || model.kind == GAMMA || model.kind == GAMMAOFF)) continue;
       double a, b;
-      if (model.kind == EXPO) { a = 60 / model.a; b = 80 / model.a; }
-      else if (model.kind == GAUSS) { a = model.a + 45 * model.b; b = model.a + 60 * model.b; }
+      // "edge": the lower end sits where 1-cdf is a few ulp of 1 (mass ~1e-16: neither zero nor usable)
+      bool edge = (model.kind == EXPO || model.kind == GAUSS) && c.rng.chance(0.5);
+      if (model.kind == EXPO) { a = (edge ? c.rng.real(34, 37.5) : 60) / model.a; b = 80 / model.a; }
+      else if (model.kind == GAUSS) { a = model.a + (edge ? c.rng.real(8.0, 8.3) : 45) * model.b; b = model.a + 60 * model.b; }
       else { double off = model.kind == GAMMAOFF ? model.off : 0; a = off + (4 * model.a + 150) / model.b; b = off + (6 * model.a + 300) / model.b; }
       if (!(a > d->getLowerBound() && b < d->getUpperBound())) continue;
       IntervalConstraint ic(a, b, true, true);
-      op = "restrictToConstraint(" + ic.getDescription() + ") [far tail]";
+      op = "restrictToConstraint(" + ic.getDescription() + (edge ? ") [tail at the resolution limit]" : ") [far tail]");
       vrt::step(op);
       d->restrictToConstraint(ic);
       setRestricted(model);
-      vrt::cover(model.cls() + ":op:restrict:tail");
+      vrt::cover(model.cls() + (edge ? ":op:restrict:tail-edge" : ":op:restrict:tail"));
     }
     else if (k < 93)
     {
@@ -1431,8 +1433,8 @@ int main(int argc, char** argv)
 {
   const size_t combos = NLEAF * 32 * 3 * 2;
   vector<vrt::Group> groups = {
-    { "leaf", combos * 8, combos * 60, caseLeaf, 600, false },
-    { "compound", 12000, 200000, caseCompound, 600, false },
+    { "leaf", combos * 8, combos * 120, caseLeaf, 600, false },
+    { "compound", 12000, 400000, caseCompound, 600, false },
     { "known-median", 1, 1, caseKnownMedian, 300, false },
     { "known-invmixed-merge", 1, 1, caseKnownInvMixedMerge, 300, false },
   };
